@@ -34,7 +34,14 @@ P = 'circus.process:Process.'
 
 
 def check(run, ctx):
-    run.each(ctx, [r1, r2, r3, r4, r5, r6])
+    run.each(ctx, [r1, r2, r3, r4, r5, r6, r7])
+
+
+def r7(run, ctx):
+    from rules import c04
+    run.share(ctx, c04.r2, 'R2', 'R7', 'a worker id stays reserved as long as its worker lives '
+              '(shared with C04 R2): _nextwid only sees tracked workers, so untracking a live one '
+              'hands its id to the next spawn')
 
 
 KW_EXCEPTIONS = {
